@@ -359,6 +359,9 @@ class _Exporter:
         The graph may be the main graph (of a model) or a subgraph (of a Loop or If node).
         """
         code = []
+        # Constants inlined while translating this body are local to it: a sibling scope may
+        # use the same name for another value.
+        outer_constants = dict(self.constants)
         if hasattr(graph, "initializer"):
             for init in graph.initializer:
                 if self.skip_initializers:
@@ -392,6 +395,7 @@ class _Exporter:
                 code.append(pynode)
 
         final = "\n".join(code)
+        self.constants = outer_constants
         return final
 
     def _translate_attributes(self, node):
